@@ -51,6 +51,26 @@ pub fn neutralize_raw<'l>(arg: &mut Argument<'l>) -> Result<bool, SimplifyError>
 {
 	let mut changed = false;
 	
+	// the negation of a difference is the swapped difference: both `-(l - r)` and `0 - (l - r)` become `r - l`
+	// (before the passes below, which bring the swapped node into neutral form)
+	let swap = match arg
+	{
+		Argument::Negate(value) => matches!(value.as_ref(), Argument::Subtract{..}),
+		Argument::Subtract{lhs, rhs} =>
+		{
+			matches!(lhs.as_ref(), Argument::Constant(Number::Integer(0))) && matches!(rhs.as_ref(), Argument::Subtract{..})
+		},
+		_ => false,
+	};
+	if swap
+	{
+		let (Argument::Negate(value) | Argument::Subtract{rhs: value, ..}) = mem::replace(arg, Argument::Constant(Number::Integer(0)))
+			else {unreachable!()};
+		let Argument::Subtract{lhs, rhs} = *value else {unreachable!()};
+		*arg = Argument::Subtract{lhs: rhs, rhs: lhs};
+		changed = true;
+	}
+	
 	// optimize out adding or subtracting a negative by flipping the binary operator
 	while matches!(arg, Argument::Add{rhs, ..} | Argument::Subtract{rhs, ..} if matches!(**rhs, Argument::Negate(..)))
 	{
